@@ -5,7 +5,7 @@
 
 package imports
 
-//@ property C19: matchTag, matchTags, MatchFile, matchOS, ShouldBuild
+//@ property C19: matchTag, matchTags, MatchFile, matchOS, ShouldBuild, ScanDir
 //@ bounded C19: TestVerifBoundedShouldBuild
 
 // ---- vocabulary of property C19 (Go's build-constraint rules) ----
@@ -288,3 +288,28 @@ package imports
 //@   modifies bytes, gPos, gBase, F_S_imports_importReader_*
 //@   ensures result != nil && fresh(result) && result.b != nil && result.err == nil && !result.eof && result.peek == 0 && result.nerr == 0 && len(result.buf) == 0
 //@   ensures gPos == gBase && (gBase == 0 || (gBase == 3 && gIn[0] == 239 && gIn[1] == 187 && gIn[2] == 191))
+
+// ScanDir (C19): a directory entry is scanned only if it is a regular file whose name
+// does not start with "_", ends in ".go" and is accepted by MatchFile's rule.
+//@ pure func isRegularS(m int) bool
+//@ pure func typeOfS(e int) int
+//@ extern (os.DirEntry).Type(e) (r)
+//@   pure
+//@   ensures r == typeOfS(e)
+//@ extern (io/fs.FileMode).IsRegular(m) (r)
+//@   pure
+//@   ensures r == isRegularS(m)
+//@ extern (os.DirEntry).Name(e) (r)
+//@   pure
+//@ extern os.ReadDir(name) (entries, err)
+//@   modifies new H_Int
+//@   ensures entries == nil || fresh(entries)
+//@ func scanFiles
+//@   trusted
+//@   modifies new H_Str
+//@ func ScanDir
+//@   requires tags != nil
+//@   modifies new H_Int, new H_Str
+//@   at call filepath.Join#1: requires isRegularS(typeOfS(info)) && !(len(name) >= 1 && at(name, lo(name)) == '_') && len(name) >= 3 && at(name, hi(name)-3) == '.' && at(name, hi(name)-2) == 'g' && at(name, hi(name)-1) == 'o'
+//@   at call filepath.Join#1: requires tags["*"] || firstIdx(stemOf(name), '_') < 0 || fileOK(tailOf(stemOf(name)), tags, KnownOS, KnownArch)
+//@   loop 1: invariant -1 <= rangeindex && (files == nil || fresh(files)) && oldObjectsUnchanged(H_Str)
